@@ -82,7 +82,7 @@ def norm_reserved(t):
 
 
 @rule("C16-L1", "C16", 6, "the layout formula is one and the same term at every site: Options::data_offset_in, header_meta and each constructor's Memory.data_offset "
-      "(unified: alignUp(H, reserved) + align_of H + size_of H; plain: reserved + 1)")
+      "(unified: alignUp(H, reserved) + align_of H + size_of H; plain: reserved + 1)", also=("C05",))
 def l1(ctx):
     b = ctx.facts.one(r"^options::Options::data_offset_in$")
     ev, res = ctx.eval(b)
@@ -174,7 +174,7 @@ ARENA_FROM = {"freelist": "freelist", "reserved": "reserved", "cap": "cap", "fla
 
 
 @rule("C16-L6", "C16", 30, "accessor provenance: From<Memory> copies each Arena field from the Memory field of the same meaning; descriptive accessors return those fields / flag tests; "
-      "constructors fill Memory from Options and the mode constants")
+      "constructors fill Memory from Options and the mode constants", also=("C05",))
 def l6(ctx):
     SELF = ("param", 0, "self")
     MEM = ("param", 0, "memory")
@@ -307,7 +307,7 @@ def l8(ctx):
 
 
 @rule("C16-L9", "C16", lambda cfg: 3 if "memmap" in cfg else 1, "the unified constructors write the same identification block (write_sanity(freelist as u8, magic_version, mapping[reserved..])) and the same header "
-      "(H::new(data_offset, minimum_segment_size) at the header offset)")
+      "(H::new(data_offset, minimum_segment_size) at the header offset)", also=("C05",))
 def l9(ctx):
     shapes = {}
     for name, pat, _, _ in constructors(ctx):
